@@ -85,6 +85,20 @@ func (p *IdentityProvider) ssoHandleFunc(w http.ResponseWriter, r *http.Request)
 		},
 	)
 
+	// the detached signature parameters are only defined for the redirect binding, they can not be verified with POST
+	checkerInstance.WithLogicStep(
+		func() error {
+			if authRequestForm.Binding == PostBinding && authRequestForm.Sig != "" {
+				err = fmt.Errorf("signature parameter is not supported with the POST binding")
+				return err
+			}
+			return nil
+		},
+		func() {
+			response.sendBackResponse(r, w, response.makeFailedResponse(StatusCodeRequestDenied, err.Error(), p.TimeFormat))
+		},
+	)
+
 	// decode request from xml into golang struct
 	checkerInstance.WithLogicStep(
 		func() error {
